@@ -96,7 +96,7 @@ SPEC = dict(
         # the documented first-completion rule ("lagging senders may complete with set_value in which case their results are
         # discarded"): FAILS on the unchanged tree (first completion done/error, lagging value) -> thorough tier only, see the report
         dict(name='store_result_lagging_discarded', harness='h_store_result_lagging', enforce='when_any_store_result',
-             defines=['VF_DOC_FIRST'], tier='thorough'),
+             props=['C05'], defines=['VF_DOC_FIRST']),
         dict(name='lemma_inv', harness='lemma_inv', mode='lemma'),
         dict(name='lemma_rely', harness='lemma_rely', mode='lemma'),
         dict(name='lemma_init', harness='lemma_init', mode='lemma'),
